@@ -4,6 +4,13 @@ Correspondence (returned list *in order* == model) + executable specification
 (`C08.specCheckCall`: every returned assignment admissible, none twice, every admissible one
 present, caller's lists untouched) on every implementation output; `MappingMatrix.is_mapping`
 against `C08.isMappingSpec` and against `permute([ps], [ss]) != []`.
+
+ALTERNATIVE FORMS of the mapper's configuration (tags cmtn-form:* / ctor-form:*): `can_map_to_nothing` as a BARE STRING
+(documented meaning: a one-element list — also for MULTI-LETTER element symbols such as "Cl", "Br", "Si", which an
+iteration over the string would split into letters), the constructor called with positional arguments or with the
+defaults left out.  A share of every stream (exhaustive, box, random, matrices) goes through each alternative; the Lean
+model always receives the intended normal form (["Cl"]), and the canonical form (keywords, list) is asked of the
+implementation as well: both must give the same answer (a differing canonical answer is judged as a case of its own).
 """
 import itertools
 import json
@@ -35,6 +42,17 @@ EXOTIC = [
     ("R", False, ["R", "R"]),
 ]
 MATRIX_SYMS = ["C", "c", "O", "H", "R", "Cl", "Br", "Si", "N", "cl", "r", "S", "B", "l", "Na", "i"]
+# ALTERNATIVE FORM of the configuration: `can_map_to_nothing` given as a BARE STRING (documented and used by the
+# library's own tests: "a bare string is a one-element list"), in particular with MULTI-LETTER element symbols, which
+# a normalisation by iteration (`list("Cl") == ["C", "l"]`) would split.  The Lean model always receives the intended
+# normal form ([<the string>]); the canonical LIST form is also asked of the implementation and must answer the same.
+BARE_STRINGS = ["Cl", "Br", "Si", "H", "R", "cl", "Na", "C"]
+BARE = [(w, ic, c) for c in BARE_STRINGS for w in (None, "R") for ic in (False, True)] + \
+       [("Cl", False, "Cl"), ("Cl", True, "cl"), ("Br", False, "B"), ("Si", False, "Si"), ("R", False, "RH")]
+# the letters a split multi-letter symbol falls into must occur in the symbol lists, next to the symbol itself
+BARE_ALPHA = {"Cl": ["C", "l", "Cl", "O"], "Br": ["B", "r", "Br", "C"], "Si": ["S", "i", "Si", "C"], "Na": ["N", "a", "Na", "C"],
+              "cl": ["c", "l", "cl", "Cl", "C"], "RH": ["R", "H", "RH", "C"]}
+ALT_FORM_SHARE = 0.15      # share of the random streams that goes through an alternative form of the configuration
 
 
 class Shape(Exception):
@@ -74,10 +92,30 @@ def cmtn_list(cmtn):
     return list(cmtn) if isinstance(cmtn, list) else [cmtn]
 
 
-def mk_mapper(wild, ic, cmtn):
+def mk_mapper(wild, ic, cmtn, form=None):
+    """form None: keyword arguments, `can_map_to_nothing` as given (a list, or a bare string = the alternative form
+    of a one-element list); "omitted": defaults left out (only legal when they ARE the defaults); "positional":
+    the three arguments by position"""
     from fgutils.permutation import PermutationMapper
-    return PermutationMapper(wildcard=wild, ignore_case=ic,
-                             can_map_to_nothing=(list(cmtn) if isinstance(cmtn, list) else cmtn))
+    c = list(cmtn) if isinstance(cmtn, list) else cmtn
+    if form == "positional":
+        return PermutationMapper(wild, ic, c)
+    if form == "omitted":
+        kw = {}
+        if wild is not None:
+            kw["wildcard"] = wild
+        if ic:
+            kw["ignore_case"] = True
+        if c != []:
+            kw["can_map_to_nothing"] = c
+        return PermutationMapper(**kw)
+    return PermutationMapper(wildcard=wild, ignore_case=ic, can_map_to_nothing=c)
+
+
+def form_tag(cmtn, form):
+    if not isinstance(cmtn, list):
+        return "cmtn-form:bare-string" + (":multi-letter" if len(cmtn) > 1 else ":one-letter")
+    return "cmtn-form:list" if form is None else "ctor-form:" + form
 
 
 def to_wire(out, n):
@@ -105,24 +143,42 @@ def impl_permute(wild, ic, cmtn, pat, st, mapper=None):
     return [to_wire(out, len(pat)), p0, s0]
 
 
-def permute_case(wild, ic, cmtn, pat, st, stream, shared=None, r=None):
-    out = call_impl(impl_permute, wild, ic, cmtn, pat, st)
+def permute_case(wild, ic, cmtn, pat, st, stream, shared=None, r=None, form=None):
+    out = call_impl(lambda: impl_permute(wild, ic, cmtn, pat, st, mk_mapper(wild, ic, cmtn, form)))
     if shared is not None and not isinstance(out, ImplError):
         # the same mapper object serves many calls in the library: a call must not depend on history
         out2 = call_impl(impl_permute, wild, ic, cmtn, pat, st, shared)
         if isinstance(out2, ImplError) or out2 != out:
             out = ImplError(Shape("a mapper that has served earlier calls answers %r, a fresh one %r" % (out2, out)))
+    canon_differs = None
+    if (form is not None or not isinstance(cmtn, list)) and not isinstance(out, ImplError):
+        # alternative form of the configuration: the canonical form (keywords, list) must answer the same.  The answer
+        # sent to the driver stays the one of the ALTERNATIVE form (the spec judges it); when the two differ the
+        # canonical form's answer is judged as a case of its own (permute_cases), so whichever is wrong is reported
+        canon_out = call_impl(impl_permute, wild, ic, cmtn_list(cmtn), pat, st)
+        if isinstance(canon_out, ImplError) or canon_out != out:
+            canon_differs = canon_out.text if isinstance(canon_out, ImplError) else canon_out[0]
     req = [Atom("C08"), Atom("permute"), enc_mapper(wild, ic, cmtn_list(cmtn)), list(pat), list(st)]
     nres = -1 if isinstance(out, ImplError) else len(out[0])
     has_nothing = (not isinstance(out, ImplError)) and any(-1 in a for a in out[0])
     key = (wild, ic, tuple(cmtn_list(cmtn)), tuple(pat), tuple(st)) if nres != 0 else None
     tags = (stream, "permute", "wild=%s" % wild, "ic=%d" % ic, "cmtn=%s" % ",".join(cmtn_list(cmtn)),
-            "lp=%d" % len(pat), "ls=%d" % len(st),
+            form_tag(cmtn, form), "lp=%d" % len(pat), "ls=%d" % len(st),
             "results=%s" % ("raised" if nres < 0 else "0" if nres == 0 else "1" if nres == 1 else "2-9" if nres < 10 else "10+"),
             "uses_nothing" if has_nothing else "no_nothing")
-    meta = {"op": "permute", "wildcard": wild, "ignore_case": ic, "can_map_to_nothing": cmtn,
+    meta = {"op": "permute", "wildcard": wild, "ignore_case": ic, "can_map_to_nothing": cmtn, "constructor_form": form,
             "pattern": list(pat), "structure": list(st)}
+    if canon_differs is not None:
+        meta["answer_of_the_canonical_form_differs"] = {"can_map_to_nothing": cmtn_list(cmtn), "answer": canon_differs}
+        tags = tags + ("alternative-form-answers-differently",)
     return Case(req, out, meta=meta, nontrivial_key=key, tags=tags)
+
+
+def permute_cases(wild, ic, cmtn, pat, st, stream, shared=None, form=None):
+    c = permute_case(wild, ic, cmtn, pat, st, stream, shared, form=form)
+    if "answer_of_the_canonical_form_differs" in c.meta:
+        return [c, permute_case(wild, ic, cmtn_list(cmtn), pat, st, stream)]
+    return [c]
 
 
 def padded(wild, ic, cmtn, pat, st):
@@ -158,8 +214,16 @@ def cost(wild, ic, cmtn, pat, st):
     return perms + found * uniq // 10
 
 
-def gen_random(rng, big, limit):
-    if rng.random() < 0.5:
+def bare_alpha(rng, cmtn):
+    """symbols for a bare-string configuration: the symbol itself, the letters it would fall into, and others"""
+    base = BARE_ALPHA.get(cmtn, [cmtn, "C", "O"])
+    return list(base) + rng.sample(ALPHA + ["N", "h", "r", "Br", "l"], rng.randint(0, 2))
+
+
+def gen_random(rng, big, limit, bare=False):
+    if bare:
+        wild, ic, cmtn = rng.choice(BARE)
+    elif rng.random() < 0.5:
         wild, ic, cmtn = rng.choice(WILDS), rng.choice(ICS), rng.choice(CMTNS)
     else:
         wild, ic, cmtn = rng.choice(EXOTIC)
@@ -167,6 +231,9 @@ def gen_random(rng, big, limit):
         lp = rng.randint(1, 7 if big else 5)
         ls = rng.randint(0, 9 if big else 6)
         alpha = rng.sample(ALPHA + ["N", "h", "r", "Br"], rng.randint(1, 4))
+        if bare:
+            alpha = bare_alpha(rng, cmtn)
+            lp, ls = min(lp, 5), min(ls, 6)
         if wild is not None and rng.random() < 0.6 and wild not in alpha:
             alpha.append(wild)
         for c in cmtn_list(cmtn):
@@ -195,7 +262,13 @@ def matrix_cases(r, rng, n_matrices, stream):
         (None, True, [], ["N"], ["Na", "N"]),
     ]
     grid = list(itertools.product(WILDS, ICS, CMTNS))
+    fixed += [  # bare-string configurations with a multi-letter symbol (regression: seeded change C08_r3_2)
+        (None, False, "Cl", ["C", "Cl", "l"], ["C", "Cl", "O", "l"]),
+        ("R", True, "Br", ["B", "Br", "r", "R"], ["Br", "C", "br"]),
+        (None, False, "Si", ["Si", "S", "i"], ["O", "Si"]),
+    ]
     for k in range(-len(fixed), n_matrices):
+        form = None
         if k < 0:
             wild, ic, cmtn, psyms, ssyms = fixed[k + len(fixed)]
             psyms, ssyms = list(psyms), list(ssyms)
@@ -203,6 +276,17 @@ def matrix_cases(r, rng, n_matrices, stream):
             wild, ic, cmtn = grid[k] if k < len(grid) else rng.choice(EXOTIC)
             psyms = rng.sample(MATRIX_SYMS, rng.randint(1, 6))
             ssyms = rng.sample(MATRIX_SYMS, rng.randint(1, 6))
+            if k % 5 == 1:
+                # alternative form: bare-string can_map_to_nothing; the symbol and the letters it could be split into
+                # on BOTH sides (a pattern symbol that may vanish matches every structure symbol of the matrix)
+                wild, ic, cmtn = BARE[(k // 5) % len(BARE)] if (k // 5) < len(BARE) else rng.choice(BARE)
+                for sym in BARE_ALPHA.get(cmtn, [cmtn, "C"]):
+                    if sym not in psyms:
+                        psyms.append(sym)
+                    if sym not in ssyms and rng.random() < 0.7:
+                        ssyms.append(sym)
+            elif k % 5 == 3 and isinstance(cmtn, list):
+                form = rng.choice(["positional", "omitted"])
         if k >= 0 and k % 3 == 0:
             for s in ("Cl", "C"):           # the witness of F6: a multi-letter symbol on both sides
                 if s not in psyms:
@@ -210,28 +294,46 @@ def matrix_cases(r, rng, n_matrices, stream):
                 if s not in ssyms:
                     ssyms.append(s)
         p0, s0 = list(psyms), list(ssyms)
-        mapper = call_impl(mk_mapper, wild, ic, cmtn)
+        mapper = call_impl(mk_mapper, wild, ic, cmtn, form)
         mm = mapper if isinstance(mapper, ImplError) else call_impl(MappingMatrix, p0, s0, mapper)
         lists_touched = (p0 != psyms or s0 != ssyms)
+        alt = form is not None or not isinstance(cmtn, list)
+        # alternative form of the configuration: a matrix built from the CANONICAL form must answer the same
+        mm_canon = call_impl(lambda: MappingMatrix(list(psyms), list(ssyms), mk_mapper(wild, ic, cmtn_list(cmtn)))) if alt else None
         for ps in psyms:
             for ss in ssyms:
+                canon_differs = None
                 if isinstance(mm, ImplError):
                     ans = mm
                 elif lists_touched:
                     ans = ImplError(Shape("MappingMatrix modified the caller's symbol lists"))
                 else:
                     ans = call_impl(lambda: bool(mm.is_mapping(ps, ss)))
-                    direct = call_impl(lambda: mk_mapper(wild, ic, cmtn).permute([ps], [ss]) != [])
+                    direct = call_impl(lambda: mk_mapper(wild, ic, cmtn, form).permute([ps], [ss]) != [])
                     if not isinstance(ans, ImplError) and (isinstance(direct, ImplError) or direct != ans):
                         ans = ImplError(Shape("is_mapping(%r,%r)=%r but permute([ps],[ss]) != [] is %r" % (ps, ss, ans, direct)))
+                    if alt and not isinstance(ans, ImplError):
+                        # the alternative form's answer is what the driver judges; a differing answer of the canonical
+                        # form is judged as a case of its own
+                        can = mm_canon if isinstance(mm_canon, ImplError) else call_impl(lambda: bool(mm_canon.is_mapping(ps, ss)))
+                        if isinstance(can, ImplError) or can != ans:
+                            canon_differs = [can]
                 req = [Atom("C08"), Atom("ismapping"), enc_mapper(wild, ic, cmtn_list(cmtn)), ps, ss]
                 multi = len(ps) > 1 or len(ss) > 1
-                meta = {"op": "ismapping", "wildcard": wild, "ignore_case": ic, "can_map_to_nothing": cmtn,
+                meta = {"op": "ismapping", "wildcard": wild, "ignore_case": ic, "can_map_to_nothing": cmtn, "constructor_form": form,
                         "pattern_symbols": psyms, "structure_symbols": ssyms, "ps": ps, "ss": ss}
-                cases.append(Case(req, ans, meta=meta,
-                                  nontrivial_key=("m", wild, ic, tuple(cmtn_list(cmtn)), ps, ss),
-                                  tags=("corpus" if k < 0 else stream, "ismapping", "multi_letter" if multi else "single_letter",
-                                        "answer=%s" % ("raised" if isinstance(ans, ImplError) else int(ans)))))
+                tags = ("corpus" if k < 0 else stream, "ismapping", form_tag(cmtn, form), "multi_letter" if multi else "single_letter",
+                        "answer=%s" % ("raised" if isinstance(ans, ImplError) else int(ans)))
+                if canon_differs:
+                    can = canon_differs[0]
+                    meta["answer_of_the_canonical_form_differs"] = {"can_map_to_nothing": cmtn_list(cmtn),
+                                                                    "answer": can.text if isinstance(can, ImplError) else can}
+                    tags += ("alternative-form-answers-differently",)
+                cases.append(Case(req, ans, meta=meta, nontrivial_key=("m", wild, ic, tuple(cmtn_list(cmtn)), ps, ss), tags=tags))
+                if canon_differs:
+                    cases.append(Case(req, canon_differs[0], meta=dict(meta, can_map_to_nothing=cmtn_list(cmtn), constructor_form=None),
+                                      nontrivial_key=("m", wild, ic, tuple(cmtn_list(cmtn)), ps, ss, "canonical"),
+                                      tags=("ismapping", "canonical-form-of-a-differing-alternative")))
     return cases
 
 
@@ -299,6 +401,12 @@ CORPUS = [
     # multi-letter symbols inside lists
     ("R", False, ["H"], ["Cl", "C", "R"], ["C", "Cl", "Cl"]),
     (None, True, [], ["Cl", "cl"], ["CL", "cl", "Cl"]),
+    # bare-string can_map_to_nothing with a multi-letter symbol = the one-element list (seeded change C08_r3_2)
+    (None, False, "Cl", ["C", "Cl"], ["C"]),
+    (None, False, "Cl", ["C"], ["O"]),
+    (None, False, "Cl", ["C", "Cl"], ["Cl"]),
+    ("R", True, "Br", ["B", "br", "R"], ["C", "b"]),
+    ("R", False, "Si", ["S", "Si", "i"], ["S"]),
     # empty pattern / empty structure
     ("R", False, ["H", "R"], [], ["C"]),
     ("R", False, ["H", "R"], ["H", "R"], []),
@@ -309,17 +417,39 @@ CORPUS = [
 _SHARED = {}
 
 
-def _shared_mapper(wild, ic, cmtn):
-    """one long-lived mapper per configuration and worker process"""
-    k = (wild, ic, repr(cmtn))
+def _shared_mapper(wild, ic, cmtn, form=None):
+    """one long-lived mapper per configuration (and form in which it was given) and worker process"""
+    k = (wild, ic, repr(cmtn), form)
     if k not in _SHARED:
-        _SHARED[k] = mk_mapper(wild, ic, cmtn)
+        _SHARED[k] = mk_mapper(wild, ic, cmtn, form)
     return _SHARED[k]
 
 
+class PCase(Case):
+    """a case whose request line was already written in the worker process (the main process only forwards it)"""
+    __slots__ = ("_line",)
+
+    def line(self):
+        return self._line
+
+
 def _work(inp):
-    stream, wild, ic, cmtn, pat, st = inp
-    return permute_case(wild, ic, cmtn, pat, st, stream, _shared_mapper(wild, ic, cmtn))
+    stream, wild, ic, cmtn, pat, st = inp[:6]
+    form = inp[6] if len(inp) > 6 else None
+    out = []
+    for c in permute_cases(wild, ic, cmtn, pat, st, stream, _shared_mapper(wild, ic, cmtn, form), form=form):
+        pc = PCase(c.req, c.impl, c.in_domain, c.meta, c.nontrivial_key, c.compare_model, c.tags)
+        pc._line = c.line()
+        out.append(pc)
+    return out
+
+
+def ctor_form(rng, wild, ic, cmtn):
+    """a seed-chosen part of the list-form configurations is CONSTRUCTED differently (positional arguments /
+    defaults left out): the same mapper, the same answers"""
+    if isinstance(cmtn, list) and rng.random() < ALT_FORM_SHARE / 2:
+        return rng.choice(["positional", "omitted"])
+    return None
 
 
 def gen_inputs(tier, rng):
@@ -333,26 +463,42 @@ def gen_inputs(tier, rng):
                                 (p for p in exhaustive_pairs(5, 5) if max(len(p[0]), len(p[1])) > 3))
     else:
         pairs = exhaustive_pairs(4, 4)
+    # (a seed-chosen part of the grid goes through an ALTERNATIVE FORM of the same configuration: a one-element list as the
+    #  bare string — 30% of those, i.e. ~12% of the stream — or the constructor called positionally / with defaults left out,
+    #  ~10%; the canonical form is then asked as well and must agree, so the exhaustive statement about it is not weakened)
     for pat, st in pairs:
         for wild, ic, cmtn in grid:
-            yield ("exhaustive", wild, ic, cmtn, pat, st)
+            x = rng.random()
+            if len(cmtn) == 1 and x < 0.3:
+                yield ("exhaustive", wild, ic, cmtn[0], pat, st)
+            elif x > 0.88:
+                yield ("exhaustive", wild, ic, cmtn, pat, st, "positional" if x > 0.94 else "omitted")
+            else:
+                yield ("exhaustive", wild, ic, cmtn, pat, st)
+    # exhaustive, alternative form: can_map_to_nothing as a bare string (multi-letter and one-letter), small lists
+    bare_grid = [(w, ic, c) for w in WILDS for ic in ICS for c in ("Cl", "H", "R")]
+    for pat, st in exhaustive_pairs(3 if tier == "quick" else 4, 3):
+        for wild, ic, cmtn in bare_grid:
+            yield ("exhaustive-bare-string", wild, ic, cmtn, pat, st)
     # random sample of the box |pat|,|str| <= 4 (quick) / <= 6 (thorough) over the same alphabet
     box = 4 if tier == "quick" else 6
     limit = 5040 if tier == "quick" else 120960
     for _ in range(20000 if tier == "quick" else 300000):
-        wild, ic, cmtn = rng.choice(grid)
+        bare = rng.random() < ALT_FORM_SHARE
+        wild, ic, cmtn = rng.choice(BARE) if bare else rng.choice(grid)
+        alpha = bare_alpha(rng, cmtn) if bare else ALPHA
         for _try in range(20):
-            pat = [rng.choice(ALPHA) for _ in range(rng.randint(1, box))]
-            st = [rng.choice(ALPHA) for _ in range(rng.randint(0, box))]
+            pat = [rng.choice(alpha) for _ in range(rng.randint(1, box))]
+            st = [rng.choice(alpha) for _ in range(rng.randint(0, box))]
             if cost(wild, ic, cmtn, pat, st) <= limit // 7:
                 break
         else:
             pat, st = ["C"], ["C"]
-        yield ("box", wild, ic, cmtn, pat, st)
+        yield ("box", wild, ic, cmtn, pat, st, ctor_form(rng, wild, ic, cmtn))
     # random longer lists, exotic configurations
     for k in range(10000 if tier == "quick" else 200000):
-        wild, ic, cmtn, pat, st = gen_random(rng, k % 5 == 0, limit)
-        yield ("random", wild, ic, cmtn, pat, st)
+        wild, ic, cmtn, pat, st = gen_random(rng, k % 5 == 0, limit, bare=rng.random() < ALT_FORM_SHARE)
+        yield ("random", wild, ic, cmtn, pat, st, ctor_form(rng, wild, ic, cmtn))
 
 
 def run(tier, seed):
@@ -373,14 +519,14 @@ def run(tier, seed):
         for inp in gen_inputs(tier, rng):
             block.append(inp)
             if len(block) >= 30000:
-                r.evaluate(pool.map(_work, block, chunksize=250))
+                r.evaluate([c for cs in pool.map(_work, block, chunksize=250) for c in cs])
                 block = []
                 if r.spec_failures:
                     # a concrete failing input is in hand: report it instead of searching on
                     stopped = True
                     break
         if block and not stopped:
-            r.evaluate(pool.map(_work, block, chunksize=250))
+            r.evaluate([c for cs in pool.map(_work, block, chunksize=250) for c in cs])
         for k in range(2000, len(mcases), 40000):
             if not stopped:
                 r.evaluate(mcases[k:k + 40000])
@@ -413,7 +559,11 @@ def run(tier, seed):
         level="proof",
         rule="exhaustive: every pattern/structure list over {C,c,O,H,R,Cl} (quick: |pat|+|str|<=4; thorough: |pat|,|str|<=3 and |pat|+|str|<=5) "
              "x wildcard in {None,R} x ignore_case x can_map_to_nothing in {[],[H],[R],[H,R],[R,H]}; random lists from the box up to 4x4 (6x6 thorough); "
-             "random longer lists (pattern <= 7, structure <= 9) incl. bare-string / duplicate / substring-of-wildcard / folded configurations; "
+             "random longer lists (pattern <= 7, structure <= 9) incl. duplicate / substring-of-wildcard / folded configurations; "
+             "ALTERNATIVE FORMS of the configuration (tags cmtn-form:* / ctor-form:*): can_map_to_nothing as a BARE STRING (= one-element list; multi-letter symbols Cl, Br, Si, Na, cl and "
+             "one-letter ones) exhaustively on lists with |pat|+|str|<=3 and in ~15% of the box / random streams and a fifth of the matrices, over alphabets that contain the symbol AND the letters "
+             "it could be split into; constructor called with positional arguments / defaults left out (~7%); the Lean model receives the intended normal form ([<string>]) and the canonical "
+             "form (keywords, list) is also asked of the implementation and must answer the same; "
              "MappingMatrix over random symbol sets with multi-letter symbols, one case per symbol pair; "
              "non-trivial = at least one assignment returned (permute) / every matrix cell, distinct by (configuration, lists)",
         checker_cmd="cd lean && lake build FGVerif.Proofs.C08 && lake env lean FGVerif/Audit/C08.lean",
@@ -432,13 +582,13 @@ def replay(path):
         return 2
     if meta.get("op") == "permute":
         c = permute_case(meta["wildcard"], meta["ignore_case"], meta["can_map_to_nothing"], meta["pattern"],
-                         meta["structure"], "replay")
+                         meta["structure"], "replay", form=meta.get("constructor_form"))
         r.evaluate([c])
     elif meta.get("op") == "ismapping":
         from fgutils.permutation import MappingMatrix
         wild, ic, cmtn = meta["wildcard"], meta["ignore_case"], meta["can_map_to_nothing"]
         ans = call_impl(lambda: bool(MappingMatrix(list(meta["pattern_symbols"]), list(meta["structure_symbols"]),
-                                                   mk_mapper(wild, ic, cmtn)).is_mapping(meta["ps"], meta["ss"])))
+                                                   mk_mapper(wild, ic, cmtn, meta.get("constructor_form"))).is_mapping(meta["ps"], meta["ss"])))
         req = [Atom("C08"), Atom("ismapping"), enc_mapper(wild, ic, cmtn_list(cmtn)), meta["ps"], meta["ss"]]
         r.evaluate([Case(req, ans, meta=meta, nontrivial_key=("m",))])
     else:
